@@ -4,6 +4,7 @@ import Darling.Props.C12
 import Darling.Props.C14
 import Darling.Props.C02
 import Darling.Props.C18
+import Darling.Spec.PanicInventory
 /-
   C07 — Parsing is total at run time: every input yields Ok or Err, never a panic.
 
@@ -193,5 +194,8 @@ theorem shape_validation_returns (ws : List Spec.C18.Word) (b : BodyShape) : ((C
 theorem shape_display_returns (s : ShapeSet) : s.display.Returns := by
   obtain ⟨d, hd⟩ := C18.display_ok s
   rw [hd]; exact Outcome.returns_ok _
+
+/-- T3: the explicit panic sites of the current source are exactly the classified inventory -/
+theorem inventory_current : Generated.panicSites = Spec.PanicInventory.sites.map (·.key) := by decide
 
 end C07
